@@ -62,6 +62,10 @@ def record(mol, grid, window, pka_text, max_groups=None):
 
     def q(ph):
         return orig(params, ph=ph)
+    def sg(x):
+        return 0 if abs(x) < 1e-9 else (1 if x > 0 else -1)
+    pis = [sg(q(pif - prec)[1]), sg(q(pif + prec)[1]), sg(q(piu - prec)[0]), sg(q(piu + prec)[0]),
+           sg(q(piw[0])[1]), sg(q(piw[1])[1]), sg(q(piw[0])[0]), sg(q(piw[1])[0])]
     piq = [r4(q(pif - prec)[1]), r4(q(pif + prec)[1]), r4(q(piu - prec)[0]), r4(q(piu + prec)[0]),
            r4(q(piw[0])[1]), r4(q(piw[1])[1]), r4(q(piw[0])[0]), r4(q(piw[1])[0])]
     f = pkaparse.parse(pka_text) if pka_text else None
@@ -72,7 +76,7 @@ def record(mol, grid, window, pka_text, max_groups=None):
         "opt": [micro(opt[0]), r4(opt[1])] if opt[0] is not None else [NONE, NONE],
         "r80": [micro(r80[0]), micro(r80[1])] if r80[0] is not None else [NONE, NONE],
         "stab": [micro(stab[0]), micro(stab[1])] if stab[0] is not None else [NONE, NONE],
-        "grp": grp, "pi": [micro(pif), micro(piu)], "piq": piq, "piw": [micro(piw[0]), micro(piw[1])],
+        "grp": grp, "pi": [micro(pif), micro(piu)], "piq": piq, "pis": pis, "piw": [micro(piw[0]), micro(piw[1])],
         "bisf": bisf, "bisu": bisu,
         "file": {"fold": f["fold_rows"] if f else [], "charge": f["charge_rows"] if f else [],
                  "pi": f["pi"] if f and f["pi"] else [NONE, NONE], "opt": f["opt"] if f and f["opt"] else [NONE, NONE]},
